@@ -46,15 +46,30 @@ def isC09Op : Op → Bool
   | .mint .. => true
   | .burn .. => true
   | .transferOwner .. => true
+  | .legacyIssue .. => true
+  | .legacyEdit .. => true
+  | .legacyMint .. => true
+  | .legacyBurn .. => true
+  | .legacyTransferOwner .. => true
   | _ => false
+
+/-- what an operation, if accepted in state `s`, adds to the burned tally of `d`: a v1 burn its
+amount of min units, a legacy burn `amount · 10^scale` of the min unit of the token its symbol names -/
+def burnAdds (d : String) (s : State) : Op → Nat
+  | .burn _ denom amount => if denom = d then amount.toNat else 0
+  | .legacyBurn _ symbol amount =>
+    match AMap.get? s.tokens symbol with
+    | some t => if t.minUnit = d then amount * pow10 t.scale else 0
+    | none => 0
+  | _ => 0
 
 /-- Σ of the amounts of the accepted burns of `d` in a history -/
 def burnSum (d : String) : State → List Op → Nat
   | _, [] => 0
   | s, op :: rest =>
-    (match op, step s op with
-     | .burn _ denom amount, .ok _ => if denom = d then amount.toNat else 0
-     | _, _ => 0) + burnSum d (apply s op) rest
+    (match step s op with
+     | .ok _ => burnAdds d s op
+     | .error _ => 0) + burnSum d (apply s op) rest
 
 /-! ### monitor (Bool) -/
 
@@ -108,7 +123,7 @@ def evmSameExcept (pre post : State) (ex : List (Nat × String)) : Bool :=
 def sameState (a b : State) : Bool :=
   tableSame a.tokens b.tokens && tableSame a.minUnits b.minUnits && tableSame a.owners b.owners &&
   tableSame a.burned b.burned && tableSame a.contracts b.contracts && decide (a.params = b.params) &&
-  bankSame a b && a.nonce == b.nonce && evmSameExcept a b [] && a.fault == b.fault
+  bankSame a b && a.nonce == b.nonce && evmSameExcept a b [] && a.fault == b.fault && a.impl == b.impl
 
 /-- the min unit in which fees are charged -/
 def feeUnit (s : State) : Option String := (getToken s s.params.feeDenom).map (·.minUnit)
@@ -131,8 +146,8 @@ structure Fail where
 def chk (ok : Bool) (clause : String) (cls : String := "") : List Fail :=
   if ok then [] else [{ clause := clause, cls := cls }]
 
-/-- what an accepted operation must have done (C09's statement, clause by clause) -/
-def acceptedFails (pre : State) (op : Op) (post : State) : List Fail :=
+/-- what an accepted v1 operation must have done (C09's statement, clause by clause) -/
+def acceptedV1 (pre : State) (op : Op) (post : State) : List Fail :=
   match op with
   | .issue owner symbol name minUnit scale init max mintable =>
     let mx := defaultMax init max mintable
@@ -202,6 +217,29 @@ def acceptedFails (pre : State) (op : Op) (post : State) : List Fail :=
   | _ =>
     -- operations outside C09: they never touch the burned tally
     chk (burnedSameExcept pre post []) "burned-tally-untouched"
+
+/-- the clauses of a legacy operation are those of the v1 operation it is translated to -/
+def asLegacy (fs : List Fail) : List Fail := fs.map fun f => { f with clause := "legacy-" ++ f.clause }
+
+/-- what an accepted operation must have done.  An accepted legacy (v1beta1) message must have
+exactly the effect of the v1 message the adapter translates it to: the same fields for issue /
+edit / transfer-owner; for mint / burn the coin `amount · 10^scale` of the min unit of the token
+the SYMBOL names -/
+def acceptedFails (pre : State) (op : Op) (post : State) : List Fail :=
+  match op with
+  | .legacyIssue owner symbol name minUnit scale init max mintable =>
+    asLegacy (acceptedV1 pre (.issue owner symbol name minUnit scale init max mintable) post)
+  | .legacyEdit owner symbol name max mintable => asLegacy (acceptedV1 pre (.edit owner symbol name max mintable) post)
+  | .legacyTransferOwner src dst symbol => asLegacy (acceptedV1 pre (.transferOwner src dst symbol) post)
+  | .legacyMint owner to symbol amount =>
+    (match AMap.get? pre.tokens symbol with
+     | none => chk false "legacy-mint-token-exists"
+     | some t => asLegacy (acceptedV1 pre (.mint owner to t.minUnit ((amount * pow10 t.scale : Nat) : Int)) post))
+  | .legacyBurn sender symbol amount =>
+    (match AMap.get? pre.tokens symbol with
+     | none => chk false "legacy-burn-token-exists"
+     | some t => asLegacy (acceptedV1 pre (.burn sender t.minUnit ((amount * pow10 t.scale : Nat) : Int)) post))
+  | op => acceptedV1 pre op post
 
 /-- one step of the monitor: `accepted = false` means the message was rejected (or panicked) -/
 def stepFails (pre : State) (op : Op) (accepted : Bool) (post : State) : List Fail :=
